@@ -48,3 +48,11 @@ package web
 //@   ensures err_propagates: srcErr != nil ==> result1 != nil
 //@   ensures query_err: queryErr != nil ==> result1 != nil
 //@   capture queryErr Iface = result 1 of call DB).Query
+
+// C19: a session's user is accepted as a member only if GitHub listed an organisation whose login IS the configured
+// organisation (equality, not prefix, substring or case-folded match).
+//@ func (*handler).userInOrg
+//@   modifies *
+//@   loop 0 modifies nothing
+//@   loop 0 invariant bounds: 0 <= $i && $i <= len(orgs)
+//@   ensures exact_org_only: result0 ==> exists j in 0..len(orgs) :: isType(orgs[j]["login"], "string") && unboxStr(orgs[j]["login"]) == h.GitHubOrg
